@@ -90,11 +90,13 @@ import (
 	"sort"
 	"strconv"
 	"strings"
+	"sync"
 	"testing"
 	"time"
 
 	"github.com/megaease/easegress/pkg/context"
 	"github.com/megaease/easegress/pkg/logger"
+	"github.com/megaease/easegress/pkg/option"
 	"github.com/megaease/easegress/pkg/protocols/httpprot"
 	"github.com/megaease/easegress/pkg/protocols/httpprot/httpstat"
 	"github.com/megaease/easegress/pkg/supervisor"
@@ -623,11 +625,21 @@ func c11SrvValid(s *c11Srv) bool {
 // A prototype is never handed out, every caller gets its own object.
 var c11SpecProtos = map[string]*supervisor.Spec{}
 
+// c11MockSuper: MQTTProxy.Init asks its supervisor for the member name and the
+// cluster (nil: the package's own in-memory session store is used).
+var c11MockSuper = supervisor.NewMock(&option.Options{Name: "c11-eg"}, nil, sync.Map{}, sync.Map{}, nil, nil, false, nil, nil)
+
 func c11NewSpec(text string) (*supervisor.Spec, error) {
 	if p := c11SpecProtos[text]; p != nil {
 		return supervisor.C11Respec(p), nil
 	}
-	sp, err := supervisor.NewSpec(text)
+	var sp *supervisor.Spec
+	var err error
+	if strings.Contains(text, `"kind":"MQTTProxy"`) {
+		sp, err = c11MockSuper.NewSpec(text)
+	} else {
+		sp, err = supervisor.NewSpec(text)
+	}
 	if err != nil || sp == nil {
 		return sp, err
 	}
@@ -1061,11 +1073,11 @@ func TestVerifC11(t *testing.T) {
 			"2-4 generations (Init, then Inherit which closes the previous one; 15% of the updates keep the NAME of the filter under test and change its KIND), requests park before / inside / after the filter under test while the updater inherits; " +
 			"65% of the Proxy scenarios are resilience-observable (Proxy variants 6/7: main pool and optional candidate pool, each with retry policy maxAttempts 2-3 / none, circuit breaker none / ample / tight, timeout 1h / none, failureCodes [503] / none, 3 server sets; updates keep / add / remove / change each of them or change something else while they stay; " +
 			"75% of the requests carry a backend script: the first 1-3 attempts fail by connection error, status 503 or by answering after 2h), judged by a reference model of the held generation's spec (attempt count, final status, servers, short-circuiting); tc: real TrafficController with a real HTTPServer object and Pipelines A,B,C, two updater tasks issuing create/apply/update/delete (and identical re-apply) on disjoint names, requests and GetHandler lookups; " +
-			"pipe also: 15% of the generations have no flow section (the filter order is the flow), jumps go to the post filter or to END, updates add / remove the flow section; tc also: in half of the scenarios a third updater creates / applies / updates / deletes pipelines of the SAME names pa, pb in a second namespace, Cleans that namespace and polls TrafficController.Status; UpdateTrafficGate besides ApplyTrafficGate; the final state of every name in both namespaces is compared with the reference; " +
+			"pipe also: 15% of the generations have no flow section (the filter order is the flow), jumps go to the post filter or to END, updates add / remove the flow section; tc also: in half of the scenarios a third updater creates / applies / updates / deletes pipelines of the SAME names pa, pb in a second namespace, Cleans that namespace and polls TrafficController.Status; UpdateTrafficGate besides ApplyTrafficGate; the final state of every name in both namespaces is compared with the reference; in half of the tc scenarios a neighbour of ANOTHER kind lives in the same namespace: a real MQTTProxy mq (real broker listening on the simulated network, Connect pipeline that parks 0-6 gates) which a fourth updater applies / updates (close old + init new) / deletes while 1-2 raw MQTT clients CONNECT / SUBSCRIBE / PUBLISH / PING at scheduler-chosen instants (each connection with a client id of its own); " +
 			"non-trivial = a request overlapped an update that changes its answer, or ran on a generation that had already been inherited from / closed, or started after an update that changes its answer; distinct = distinct (specs, ordered request/answer history)",
-		Real: []string{"pkg/object/httpserver mux (newMux, reload, ServeHTTP, search, cache), runtime + HTTPServer object (mode tc)", "pkg/object/pipeline Pipeline (Init, Inherit, Close, Handle)", "pkg/object/trafficcontroller (Create/Apply/Update/Delete Pipeline and TrafficGate, Namespace.GetHandler)",
+		Real: []string{"pkg/object/httpserver mux (newMux, reload, ServeHTTP, search, cache), runtime + HTTPServer object (mode tc)", "pkg/object/pipeline Pipeline (Init, Inherit, Close, Handle)", "pkg/object/trafficcontroller (Create/Apply/Update/Delete Pipeline and TrafficGate, Clean, Status, Namespace.GetHandler)", "pkg/object/mqttproxy (MQTTProxy Init/Inherit/Close through the TrafficController, Broker incl. accept loop and CONNECT handshake, Client, SessionManager with the package's in-memory store, TopicManager) as a neighbour traffic gate in mode tc",
 			"pkg/filters: ratelimiter, proxy (pools, load balancers, memory cache, resilience wrappers), mock, requestadaptor, responseadaptor, validator, fallback, corsadaptor, builder, headertojson, certextractor", "pkg/supervisor Spec / ObjectEntity", "pkg/util/ratelimiter, pkg/util/ipfilter, pkg/protocols/httpprot, pkg/context"},
-		Stub: []string{"clients (harness tasks, httptest recorders, no sockets)", "backends of the Proxy filter (proxy.fnSendRequest replaced by a scripted backend that can park and, per request script, lets the first attempts fail by transport error / status 503 / answering after 2h while honouring the attempt's context)", "MuxMapper + backend handlers in mode mux", "park/echo filter kind C11Park registered by the harness", "listener of the HTTPServer object (gracenet.ListenHook -> idle listener in mode tc, simnet listener in mode rt; in mode rt the hook also injects 'address already in use' bind failures)",
+		Stub: []string{"clients (harness tasks, httptest recorders, no sockets)", "backends of the Proxy filter (proxy.fnSendRequest replaced by a scripted backend that can park and, per request script, lets the first attempts fail by transport error / status 503 / answering after 2h while honouring the attempt's context)", "MuxMapper + backend handlers in mode mux", "park/echo filter kind C11Park registered by the harness", "TCP of the MQTTProxy: simnet through netshim; MQTT clients: harness tasks speaking the paho packet codec; supervisor of the MQTTProxy specs: supervisor.NewMock with a member name and no cluster; admin API registry: its change channel is drained by the harness (no API server runs)", "listener of the HTTPServer object (gracenet.ListenHook -> idle listener in mode tc, simnet listener in mode rt; in mode rt the hook also injects 'address already in use' bind failures)",
 			"sync / sync/atomic / math/rand of the instrumented files -> simsync / simatomic / simrand (same semantics + gates)"},
 		Assumptions: []string{
 			"oracle = quiescent twins of the same code: one never-updated instance per generation answers every request of the scenario before traffic starts",
@@ -1076,6 +1088,8 @@ func TestVerifC11(t *testing.T) {
 			"mode rt, listen failures: 'applied' for a hot update that arrives while the server is failed means the runtime's fsm has processed the reload event (runtime.spec is the new spec); from the start of a restart-requiring update or of the failing Init until the harness has seen the final net/http server accept a probe connection a refused dial or a connection lost in the accept queue is not judged (the client tries again); recovery is expected within 84 s of virtual time after the port is free (checkFailed period 10 s)",
 			"mode tc: 'applied' for an HTTPServer update means its runtime has processed the reload event (observed by the updater polling the mux instance); a request that overlaps create/delete of its pipeline may get 503 or an answer",
 			"mode rt, keep-alive: a request sent on a kept connection that ends before any response byte and before its handler was entered is sent again on a fresh connection and only that attempt is judged (the server may close an idle connection at any time: idle timer during a stall, restart)",
+			"mode tc, neighbour MQTTProxy: an MQTT step (dial, CONNECT accepted, SUBACK, PUBACK, PINGRESP) must succeed when mq exists and no call on mq (other than an apply of an equal spec) overlapped the connection since its dial; otherwise nothing is asserted about it; a panic on a goroutine of the code under test cannot be recovered by the harness (Go offers no hook, the only deferred call of Broker.handleConn is Close of the framework's connection type): it ends the worker process and vcheck reports it as C11.process-crash with the panic value, the stack and a seed replay",
+			"mode tc: UpdateTrafficGate with a spec equal to the one in effect may or may not make the runtime reload (the statement only says that applying an unchanged spec is a no-op); if it reloads, the harness lets the reload finish before the next call",
 			"mode tc: nothing is asserted about the content of TrafficController.Status, only that the call returns; a panic in it is reported as C11.tc.panic",
 			"not generated: tracing, globalFilter, HTTPS, mirror pools, service discovery, filters that need a cluster / broker / wasm runtime / remote endpoint (HeaderLookup, Kafka, MQTT kinds, WasmHost, RemoteFilter), Validator basicAuth (real files)",
 		},
